@@ -45,8 +45,11 @@ type Trans struct {
 	Ctrl  string `json:"ctrl,omitempty"`
 	ID    string `json:"id,omitempty"`
 	Src   string `json:"src,omitempty"`   // queue the token was taken from
-	K     int    `json:"k,omitempty"`     // crash: number of effects that still happen
+	K     int    `json:"k,omitempty"`     // crash: number of effects that still happen; interleave: store writes before the pause
 	Fault string `json:"fault,omitempty"` // fault name or request name
+	// interleave: the step or request that runs while (Ctrl, ID) is held before its (K+1)-th store write
+	Ctrl2 string `json:"ctrl2,omitempty"`
+	ID2   string `json:"id2,omitempty"`
 }
 
 func (t Trans) String() string {
@@ -55,6 +58,11 @@ func (t Trans) String() string {
 		return fmt.Sprintf("%s(%s)", t.Ctrl, t.ID)
 	case "crash":
 		return fmt.Sprintf("crash@%d:%s(%s)", t.K, t.Ctrl, t.ID)
+	case "interleave":
+		if t.Ctrl2 == "" {
+			return fmt.Sprintf("%s(%s)[client:%s before write %d]", t.Ctrl, t.ID, t.Fault, t.K+1)
+		}
+		return fmt.Sprintf("%s(%s)[%s(%s) before write %d]", t.Ctrl, t.ID, t.Ctrl2, t.ID2, t.K+1)
 	default:
 		return t.Kind + ":" + t.Fault
 	}
@@ -65,6 +73,7 @@ type Env struct {
 	NextReq int
 	Faults  int
 	Crashes int
+	Inter   int    // interleaved steps used
 	Flags   string // scenario-specific, e.g. which faults were already used
 }
 
@@ -132,8 +141,11 @@ type Scenario struct {
 	Faults      []FaultSpec
 	FaultBudget int
 	CrashBudget int
-	Mode        QueueMode
-	MaxStates   int
+	// InterleaveBudget: how many times on a path a reconcile step may be held before one of its store writes
+	// while another effectful step or the next client request runs to completion (write conflicts, stale reads)
+	InterleaveBudget int
+	Mode             QueueMode
+	MaxStates        int
 	// map-order exploration: number of single-site deviations tried per step (0 = default order only)
 	MapOrderDeviations bool
 }
@@ -143,6 +155,8 @@ type SetReqOrCall struct {
 	Name string
 	Set  *gnmi.SetRequest
 	Call func(w *World) *Call // alternative to Set (e.g. a rollback)
+	// Enabled, when set, tells whether the request can be submitted in the current state of the world
+	Enabled func(w *World) bool
 }
 
 // Hooks are the oracles of a check.
@@ -166,16 +180,17 @@ type Explorer struct {
 	W     *World
 	Hooks Hooks
 
-	States      int
-	Transitions int
-	Probes      int // any-time model: reconcile calls tried (with or without effect)
-	IdleStates  int
-	MaxDepth    int
-	Capped      bool
-	visited     map[uint64]*E1State
-	init        *E1State
-	warned      map[string]bool
-	conflicts   int // steps in which a store write returned a conflict (vacuity guard)
+	States        int
+	Transitions   int
+	Probes        int // any-time model: reconcile calls tried (with or without effect)
+	Interleavings int // interleaved step pairs executed
+	IdleStates    int
+	MaxDepth      int
+	Capped        bool
+	visited       map[uint64]*E1State
+	init          *E1State
+	warned        map[string]bool
+	conflicts     int // steps in which a store write returned a conflict (vacuity guard)
 	// the content graph (world contents and moves between them), for the exact-queue confirmation
 	contentSnap  map[uint64]*WorldSnap
 	contentEdges map[uint64]map[uint64]struct{}
@@ -295,7 +310,7 @@ func queuesCanon(queues map[string][]string) string {
 }
 
 func (x *Explorer) stateKey(canon string, queues map[string][]string, env Env, aux string) uint64 {
-	return hash64(canon + "\n#q " + queuesCanon(queues) + fmt.Sprintf("\n#env %d %d %d %s", env.NextReq, env.Faults, env.Crashes, env.Flags) + "\n#aux " + aux)
+	return hash64(canon + "\n#q " + queuesCanon(queues) + fmt.Sprintf("\n#env %d %d %d %d %s", env.NextReq, env.Faults, env.Crashes, env.Inter, env.Flags) + "\n#aux " + aux)
 }
 
 // newState snapshots the current world as a state (or returns the known one).
@@ -420,11 +435,15 @@ func (x *Explorer) Run() {
 			} else {
 				stepChoices = choices(sc.Mode, s.queues)
 			}
+			var effectful []Trans
 			for _, tr := range stepChoices {
 				w.Restore(s.snap)
 				res := w.Step(tr.Ctrl, tr.ID)
 				if strings.Contains(res.Err, "onflict") {
 					x.conflicts++
+				}
+				if res.Effects > 0 && res.Panic == "" {
+					effectful = append(effectful, tr)
 				}
 				if sc.Mode == QAny {
 					x.Probes++
@@ -449,8 +468,60 @@ func (x *Explorer) Run() {
 					}
 				}
 			}
-			// 2. the next client request
+			// 1b. interleavings: an effectful step held before its (k+1)-th store write while another one runs
+			reqEnabled := false
 			if s.env.NextReq < len(sc.Requests) {
+				reqEnabled = true
+				if r := sc.Requests[s.env.NextReq]; r.Enabled != nil {
+					w.Restore(s.snap)
+					reqEnabled = r.Enabled(w)
+				}
+			}
+			if s.env.Inter < sc.InterleaveBudget {
+				for _, a := range effectful {
+					var others []Trans
+					for _, b := range effectful {
+						// calls of one controller are sequential (one partition); calls of different controllers overlap
+						if b.Ctrl != a.Ctrl {
+							others = append(others, Trans{Kind: "interleave", Ctrl: a.Ctrl, ID: a.ID, Src: a.Src, Ctrl2: b.Ctrl, ID2: b.ID})
+						}
+					}
+					if reqEnabled && sc.Requests[s.env.NextReq].Call != nil {
+						others = append(others, Trans{Kind: "interleave", Ctrl: a.Ctrl, ID: a.ID, Src: a.Src, Fault: sc.Requests[s.env.NextReq].Name})
+					}
+				kLoop:
+					for k := 0; k < 8; k++ {
+						for _, tr := range others {
+							tr.K = k
+							w.Restore(s.snap)
+							res, reached := x.interleaved(tr)
+							if !reached {
+								break kLoop
+							}
+							x.Interleavings++
+							if strings.Contains(res.Err, "onflict") || res.Conflicts > 0 {
+								x.conflicts++
+							}
+							env := s.env
+							env.Inter++
+							if tr.Ctrl2 == "" {
+								env.NextReq++
+							}
+							queues := map[string][]string{}
+							if sc.Mode != QAny {
+								q2 := dequeue(s.queues, Trans{Kind: "step", Ctrl: a.Ctrl, ID: a.ID, Src: a.Src})
+								if tr.Ctrl2 != "" {
+									q2 = dequeue(q2, Trans{Kind: "step", Ctrl: tr.Ctrl2, ID: tr.ID2, Src: a.Src})
+								}
+								queues = enqueue(sc.Mode, q2, res.Tokens)
+							}
+							add(tr, &res, queues, env)
+						}
+					}
+				}
+			}
+			// 2. the next client request
+			if reqEnabled {
 				w.Restore(s.snap)
 				r := sc.Requests[s.env.NextReq]
 				var call *Call
@@ -524,6 +595,12 @@ func (x *Explorer) ReplayTrace(tr []Trans, each func(i int, t Trans, res *StepRe
 			w.fuse.Arm(t.K)
 			_ = w.Step(t.Ctrl, t.ID)
 			w.Restart()
+		case "interleave":
+			r, reached := x.interleaved(t)
+			if !reached {
+				panic("replay: interleaving point not reached: " + t.String())
+			}
+			res = &r
 		case "restart":
 			w.fuse.Kill()
 			w.Restart()
@@ -631,4 +708,156 @@ func replayE1(rc *RunCtx, rep *Report, scs []*Scenario) {
 		return
 	}
 	rep.HarnessErr = "unknown scenario " + name
+}
+
+// interleaved executes an "interleave" transition on the current world: step (Ctrl, ID) is held before its
+// (K+1)-th store write while the other step, or the named client request, runs to completion.
+func (x *Explorer) interleaved(t Trans) (StepResult, bool) {
+	w := x.W
+	return w.StepInterleaved(t.Ctrl, t.ID, t.K, func() {
+		if t.Ctrl2 != "" {
+			w.reconcileOnce(t.Ctrl2, t.ID2)
+			return
+		}
+		for _, r := range x.Sc.Requests {
+			if r.Name == t.Fault {
+				call := r.Call(w)
+				if !call.Done {
+					call.Cancel()
+				}
+			}
+		}
+	})
+}
+
+// RealizeExact replays a trace found in the work-set model under the exact queue discipline of the controller
+// runtime (one FIFO per watcher, bags for re-queues, retries and the replay after a restart; queues rebuilt from the
+// real watchers' tokens): every step of the trace must find its token in some queue, and the tokens standing in
+// front of it in that FIFO are executed first and must have no effect. It is greedy (nearest to the front), not a
+// search: "" means the trace is a real execution (the world is left in its final state); otherwise the reason.
+func (x *Explorer) RealizeExact(tr []Trans, drain bool, after func(i int, t Trans, res *StepResult)) string {
+	w := x.W
+	w.Restore(x.init.snap)
+	queues := map[string][]string{}
+	nextReq := 0
+	take := func(ctrl, id string) string {
+		item := ctrl + "|" + id
+		bestQ, bestPos := "", -1
+		keys := make([]string, 0, len(queues))
+		for k := range queues {
+			keys = append(keys, k)
+		}
+		sort.Strings(keys)
+		for _, k := range keys {
+			for i, it := range queues[k] {
+				if it == item {
+					pos := i
+					if strings.HasPrefix(k, "rq:") {
+						pos = 0
+					}
+					if bestPos < 0 || pos < bestPos {
+						bestQ, bestPos = k, pos
+					}
+					break
+				}
+			}
+		}
+		if bestPos < 0 {
+			return fmt.Sprintf("no token for %s(%s) is pending (queues %s)", ctrl, id, queuesCanon(queues))
+		}
+		for i := 0; i < bestPos; i++ {
+			p := strings.SplitN(queues[bestQ][0], "|", 2)
+			bt := Trans{Kind: "step", Ctrl: p[0], ID: p[1], Src: bestQ}
+			res := w.Step(bt.Ctrl, bt.ID)
+			if res.Effects > 0 || res.Panic != "" {
+				return fmt.Sprintf("token %s in front of %s(%s) in %s is not a no-op: %v", bt.String(), ctrl, id, bestQ, res.Writes)
+			}
+			queues = enqueue(QExact, dequeue(queues, bt), res.Tokens)
+		}
+		queues = dequeue(queues, Trans{Ctrl: ctrl, ID: id, Src: bestQ})
+		return ""
+	}
+	for i, t := range tr {
+		var res *StepResult
+		switch t.Kind {
+		case "step", "crash", "interleave":
+			if why := take(t.Ctrl, t.ID); why != "" {
+				return fmt.Sprintf("move %d %s: %s", i, t.String(), why)
+			}
+			if t.Kind == "interleave" && t.Ctrl2 != "" {
+				if why := take(t.Ctrl2, t.ID2); why != "" {
+					return fmt.Sprintf("move %d %s: %s", i, t.String(), why)
+				}
+			}
+			switch t.Kind {
+			case "crash":
+				w.fuse.Arm(t.K)
+				r := w.Step(t.Ctrl, t.ID)
+				res = &r
+				queues = enqueue(QExact, map[string][]string{}, w.Restart())
+			case "interleave":
+				r, reached := x.interleaved(t)
+				if !reached {
+					return fmt.Sprintf("move %d %s: the step makes fewer store writes in the exact run", i, t.String())
+				}
+				if t.Ctrl2 == "" {
+					nextReq++
+				}
+				res = &r
+				queues = enqueue(QExact, queues, r.Tokens)
+			default:
+				r := w.Step(t.Ctrl, t.ID)
+				res = &r
+				queues = enqueue(QExact, queues, r.Tokens)
+			}
+		case "restart":
+			w.fuse.Kill()
+			queues = enqueue(QExact, map[string][]string{}, w.Restart())
+		case "client":
+			if nextReq >= len(x.Sc.Requests) {
+				return "no request left"
+			}
+			r := x.Sc.Requests[nextReq]
+			nextReq++
+			var call *Call
+			if r.Set != nil {
+				call = w.GoSet(context.Background(), r.Set)
+			} else {
+				call = r.Call(w)
+			}
+			toks := w.Settle()
+			if !call.Done {
+				call.Cancel()
+				toks = append(toks, w.Settle()...)
+			}
+			queues = enqueue(QExact, queues, toks)
+		case "fault":
+			for _, f := range x.Sc.Faults {
+				if f.Name == t.Fault {
+					f.Apply(w)
+					queues = enqueue(QExact, queues, w.Settle())
+				}
+			}
+		}
+		if after != nil {
+			after(i, t, res)
+		}
+	}
+	if drain {
+		// run whatever is still pending, oldest first per queue, until nothing is left
+		for guard := 0; guard < 5000; guard++ {
+			av := exactAvail(queues)
+			if len(av) == 0 {
+				return ""
+			}
+			t := av[0]
+			res := w.Step(t.Ctrl, t.ID)
+			queues = enqueue(QExact, dequeue(queues, t), res.Tokens)
+			if after != nil {
+				after(len(tr)+guard, t, &res)
+			}
+		}
+		return "the world does not go idle within 5000 steps"
+	}
+	return ""
 }
